@@ -51,6 +51,11 @@ ASSUME = [
     "which removed-flag survives when a cell is removed on one side only of an offset-map join/meet depends on the sharing "
     "optimisation of patricia merge: not modelled, not generated in the unit stream",
     "bases other than intervals (zones) and all parameter settings of the adaptive domain: oracle search only",
+    "arrays of booleans (ARR_BOOL_TYPE, element size 1; array_smashing / array_adaptive_domain over "
+    "flat_boolean_numerical_domain<interval_domain>; init / store of the constants and of boolean variables, strong / weak / "
+    "range stores, loads, assume_bool, b := (linear constraint), copies, forget, joins, widenings): oracle search only "
+    "(streams search-bool-*; gen/arrays.py oracle_bool: cells hold booleans, what the flat boolean component says about a "
+    "variable must admit its concrete value); not modelled in Coq",
 ]
 
 # parameter settings of array_adaptive: is_smashable, smash_at_nonzero_offset, max_smashable_cells, max_array_size
@@ -61,6 +66,8 @@ PARAMS_ALL = ["%d:%d:%d:%d" % (s, n, c, m) for s in (0, 1) for n in (0, 1)
 # pairs (the constructor of array_adaptive_domain_params rejects max_smashable_cells > max_array_size)
 PARAMS_MIRROR = ["%d:%d:%d:%d" % (s, n, c, m) for s in (0, 1) for n in (0, 1)
                  for (c, m) in ((1, 2), (2, 3), (4, 8), (64, 64))]
+# settings of the boolean-array search in the quick tier
+PARAMS_BOOL_QUICK = ["1:1:64:64", "1:0:64:64", "0:0:64:64", "1:1:2:3", "0:1:1:2", "1:0:1:1"]
 NEG_CELL = re.compile(r"[{,]-\d+:")
 
 
@@ -149,10 +156,18 @@ def search(rep, tier, seed, targets, nper):
         st = {"cases": 0, "oracle_violations": 0, "aborts": 0, "nontrivial": 0, "mode": mode}
         rep.cov["streams"][stream] = st
         adapt = mode.startswith("adapt")
+        isbool = bool(opts.get("bool"))
         o2 = dict(opts); o2["meets"] = False
+        # arrays of booleans: their own history language, generator and oracle (the model does not know them)
+        oracle_f, nontrivial_f = (arrays.oracle_bool, arrays.nontrivial_bool) if isbool else (arrays.oracle, arrays.nontrivial)
+        # the known finding of the adaptive domain is listed for the streams search-adapt-*
+        kstream = ("search-adapt-" + name) if (isbool and adapt) else stream
         if adapt:
-            o2["head"] = "ashape"
-        lines = [l for l in arrays.gen(seed + 101 * (ti + 1), tier, nper, o2) if const_sizes(l)]
+            o2["head"] = "abshape" if isbool else "ashape"
+        if isbool:
+            lines = [l for l in arrays.gen_bool(seed + 7001 + 101 * (ti + 1), tier, nper, o2) if const_sizes(l)]
+        else:
+            lines = [l for l in arrays.gen(seed + 101 * (ti + 1), tier, nper, o2) if const_sizes(l)]
         if opts.get("fullinit"):
             lines = [arrays.full_init(l) for l in lines]
         answers = domall.run_cases(exe, mode, lines, os.path.join(outd, stream + ".cases"))
@@ -162,7 +177,11 @@ def search(rep, tier, seed, targets, nper):
         def orc(l, a):
             if a.startswith("ABORT") or a == "MISSING":
                 return "step 0 (abort) of: %s: the domain aborted on an input inside the searched fragment: %s" % (l, a[:200])
-            w = arrays.oracle(l, a)
+            w = oracle_f(l, a)
+            if w and isbool and "[untracked: " not in w:
+                # the known finding needs a defined cell that the state had lost before the array was smashed: the
+                # boolean oracle follows the concrete execution and says so; any other wrong load is a violation
+                return w
             return shape_at_failure(l, a, w) if w else None
         buckets = {}
         for l, a in zip(lines, answers):
@@ -178,7 +197,7 @@ def search(rep, tier, seed, targets, nper):
                 st["oracle_violations"] += 1
                 k = ("smashed-load" if "load from a smashed array" in w else "abort" if "aborted" in w else arrays.kind_of(w))
                 buckets.setdefault(k, []).append((l, a, w))
-            elif arrays.nontrivial(l, a):
+            elif nontrivial_f(l, a):
                 st["nontrivial"] += 1
         rep.cov["distinct_nontrivial"] += st["nontrivial"]
         for k, hits in sorted(buckets.items()):
@@ -191,7 +210,7 @@ def search(rep, tier, seed, targets, nper):
                 if l2 in reported:
                     continue
                 reported.add(l2)
-                kn = domall.match_known(known, "C14", stream, l2, w2)
+                kn = domall.match_known(known, "C14", kstream, l2, w2)
                 if kn:
                     rep.known_finding("%s [%s, %d hit(s) of this class in the stream] input: %s" % (kn["what"], stream, len(hits), l2))
                     st["known"] = st.get("known", 0) + 1
@@ -293,6 +312,23 @@ def run(rep, tier, seed):
     search(rep, tier, seed, targets, 600 if quick else 3000)
     rep.cov.setdefault("search", {})["wall_s"] = round(time.time() - t0, 1)
     rep.cov["search"]["targets"] = [t[0] for t in targets]
+    # 5. arrays of booleans (the boolean branches of do_update / array_load / array_init / do_assign) over
+    #    flat_boolean_numerical_domain<interval_domain>: oracle search only
+    t0 = time.time()
+    bparams = PARAMS_BOOL_QUICK if quick else PARAMS_ALL
+    btargets = [("bool-smash", "smash-bool", {"bool": True})]
+    btargets += [("bool-adapt-" + p.replace(":", "_"), "adapt-bool:" + p, {"bool": True}) for p in bparams]
+    for k in arrays.BSTATS:
+        arrays.BSTATS[k] = 0
+    search(rep, tier, seed, btargets, 300 if quick else 5000)
+    rep.cov["search_bool"] = {"wall_s": round(time.time() - t0, 1), "targets": [t[0] for t in btargets],
+                              "oracle_saw": dict(arrays.BSTATS),
+                              "rule": "boolean-array histories (abhist / abshape of harness/arrays.cpp): hand-picked corpus, then "
+                                      "seeded histories that start with a shape aimed at one case split (weak store after init with "
+                                      "the other constant, strong then weak store on a one-cell array, store of a variable with a known "
+                                      "value, range store and loads inside / outside, join of registers with different contents, "
+                                      "constant-index cells then a symbolic store) followed by 3-18 random operations, and loops with "
+                                      "widening; non-trivial = some load returned true or false"}
 
 
 def replay(path):
@@ -326,5 +362,6 @@ def replay(path):
     if not line.startswith("cells"):
         rc, out = vlib.sh([exe, "--mode=" + mode, cf])
         a = [l for l in out.split("\n") if l.startswith("R 0 ")]
-        print("oracle:", arrays.oracle(line, a[0][4:]) if a else "no answer (abort)")
+        orc = arrays.oracle_bool if line.startswith("ab") else arrays.oracle
+        print("oracle:", orc(line, a[0][4:]) if a else "no answer (abort)")
     return 0
